@@ -371,3 +371,202 @@ def tok_3(ctx, rep, accumulators):
         rep.ob('TOK-3', TOK, f.qual, '%s @ %s' % (what, head(node.stmt) if node.stmt is not None else 'exit'), False,
                'text taken from the input can be lost or duplicated: %s; path: %s' % (what, ' -> '.join(trail(state))),
                witness=trail(state))
+
+
+# ---------------------------------------------------------------------------
+# TOK-7 : the end pattern chosen for a continued string is the one of its opening quote
+# ---------------------------------------------------------------------------
+def tok_7(ctx, rep):
+    rep.rule('TOK-7', 'for every string prefix / quote combination the tokenizer can open, the expression that selects the '
+                      'end pattern of a continued string evaluates (constant folding over the finite set of prefixes) to '
+                      'the pattern of that very quote')
+    from ..fold import Folder, UNKNOWN, Rx
+    f = ctx.prog.func(TOK, 'tokenize_lines')
+    env0 = ctx.token_collection((3, 8))
+    endpats = env0.get('endpats')
+    prefixes = env0.get('possible_prefixes')
+    if not isinstance(endpats, dict) or not prefixes:
+        raise AnalysisError('TOK-7: endpats / possible_prefixes do not fold')
+    quotes1 = ['"', "'"]
+    quotes3 = ['"""', "'''"]
+    want = {}
+    for q, name in (("'", 'Single'), ('"', 'Double'), ("'''", 'Single3'), ('"""', 'Double3')):
+        want[q] = env0[name]
+    # role: the end-pattern variable is the receiver of `.match(line)` in the continued-string branch (`if <contstr>:`)
+    endvar = None
+    for n in walk_own(f.node):
+        if isinstance(n, ast.If) and isinstance(n.test, ast.Name):
+            for s_ in n.body[:2]:
+                if isinstance(s_, ast.Assign) and isinstance(s_.value, ast.Call) and isinstance(s_.value.func, ast.Attribute) \
+                        and s_.value.func.attr == 'match' and isinstance(s_.value.func.value, ast.Name):
+                    endvar = s_.value.func.value.id
+    if endvar is None:
+        raise AnalysisError('TOK-7: continued-string branch (if <contstr>: <m> = <endprog>.match(line)) not found')
+    sites = [n for n in walk_own(f.node) if isinstance(n, ast.Assign)
+             and any(isinstance(t, ast.Name) and t.id == endvar for t in n.targets)]
+    if not sites:
+        raise AnalysisError('TOK-7: no end-pattern selection found in tokenize_lines')
+    fo = Folder(ast.Module(body=[], type_ignores=[]))
+    for n in sites:
+        tests = ' '.join(norm(t.test) for t in _enclosing_ifs(n))
+        triple = 'triple_quoted' in tests
+        qs = quotes3 if triple else quotes1
+        bad = None
+        count = 0
+        for p in sorted(prefixes):
+            for q in qs:
+                token = p + q + ('abc' if triple else 'abc\\\n')
+                if triple:
+                    token = p + q
+                env = {'endpats': endpats, 'token': token, 'initial': token[0]}
+                val = fo.ev(n.value, env)
+                count += 1
+                ok = isinstance(val, Rx) and val.source == want[q]
+                if not ok and bad is None:
+                    bad = (p + q, getattr(val, 'source', repr(val)))
+        rep.ob('TOK-7', TOK, f.qual, norm(n), bad is None,
+               'for a string opened with %r the selected end pattern is %s' % bad if bad else '',
+               witness=bad[0] if bad else None)
+        rep.stat('tok7_combinations', count)
+    # and the end pattern is only consulted while a continued string is pending
+    rep.minimum('TOK-7', 2)
+
+
+def _enclosing_ifs(node):
+    out = []
+    child = node
+    p = getattr(node, '_parent', None)
+    while p is not None and not isinstance(p, (ast.FunctionDef, ast.AsyncFunctionDef)):
+        if isinstance(p, ast.If) and child in p.body:
+            out.append(p)
+        child = p
+        p = getattr(p, '_parent', None)
+    return out
+
+
+# ---------------------------------------------------------------------------
+# TOK-8 : token text provenance
+# ---------------------------------------------------------------------------
+def tok_8(ctx, rep):
+    rep.rule('TOK-8', 'the text of every token is input text: whatever flows into the string field of a token is built '
+                      'from slices of the line, regex match groups, the remembered pieces of a continued string and '
+                      'constants by concatenation only - no function transforms it')
+    from ..da import function_locals
+    from ..model import Func
+    mod = ctx.prog.mod(TOK)
+    cons = token_constructions(ctx, TOK)
+    seen = set()
+    work = []
+    n_terms = [0]
+
+    def owner_of(f, name):
+        g = f
+        while g is not None:
+            loc, params = function_locals(g.node)
+            if name in loc:
+                return g
+            g = g.outer
+        return None
+
+    def term(f, e, site):
+        n_terms[0] += 1
+        if isinstance(e, ast.Constant):
+            return
+        if isinstance(e, ast.BinOp) and isinstance(e.op, ast.Add):
+            term(f, e.left, site)
+            term(f, e.right, site)
+            return
+        if isinstance(e, ast.IfExp):
+            term(f, e.body, site)
+            term(f, e.orelse, site)
+            return
+        if isinstance(e, ast.BoolOp):
+            for v in e.values:
+                term(f, v, site)
+            return
+        if isinstance(e, ast.Subscript):
+            term(f, e.value, site)          # a slice / index of input text is input text
+            return
+        if isinstance(e, ast.Attribute):
+            return                          # state remembered on the f-string node (quote, previous lines)
+        if isinstance(e, ast.Call):
+            if isinstance(e.func, ast.Attribute) and e.func.attr in ('group',) and len(e.args) <= 1:
+                return                      # text matched by a pattern
+            if isinstance(e.func, ast.Name):
+                callee = ctx.cg.lookup_name(f, e.func.id)
+                if isinstance(callee, Func) and callee.mod.rel == TOK:
+                    # helper of the tokenizer: the element returned is analysed in the helper
+                    for r in walk_own(callee.node):
+                        if isinstance(r, ast.Return) and r.value is not None:
+                            vals = r.value.elts if isinstance(r.value, ast.Tuple) else [r.value]
+                            for v in vals[:1]:
+                                term(callee, v, r)
+                    return
+            rep.ob('TOK-8', TOK, f.qual, head(_stmt(site)), False,
+                   'token text is produced by %s: what the tree reproduces is no longer the input text' % norm(e))
+            return
+        if isinstance(e, ast.Name):
+            if e.id == 'line':
+                return
+            o = owner_of(f, e.id)
+            if o is not None:
+                work.append((o, e.id))
+            return
+        rep.ob('TOK-8', TOK, f.qual, head(_stmt(site)), False, 'token text comes from an unanalysable expression %s' % norm(e))
+
+    def _stmt(n):
+        while n is not None and not isinstance(n, ast.stmt):
+            n = getattr(n, '_parent', None)
+        return n
+
+    for f, call, fields in cons:
+        if 'string' in fields:
+            term(f, fields['string'], call)
+    while work:
+        f, name = work.pop()
+        if (f.key, name) in seen:
+            continue
+        seen.add((f.key, name))
+        loc, params = function_locals(f.node)
+        if name in params:
+            idx = f.params().index(name) if name in f.params() else None
+            for g in mod.funcs.values():
+                for n in walk_own(g.node):
+                    if isinstance(n, ast.Call) and isinstance(n.func, ast.Name) and n.func.id == f.name \
+                            and ctx.cg.lookup_name(g, f.name) is f and idx is not None and idx < len(n.args):
+                        term(g, n.args[idx], n)
+        for n in walk_own(f.node):
+            if isinstance(n, ast.Assign):
+                for tg in n.targets:
+                    if isinstance(tg, ast.Name) and tg.id == name:
+                        term(f, n.value, n)
+                    elif isinstance(tg, ast.Tuple):
+                        for i, e in enumerate(tg.elts):
+                            if isinstance(e, ast.Name) and e.id == name:
+                                v = n.value
+                                if isinstance(v, ast.Tuple) and i < len(v.elts):
+                                    term(f, v.elts[i], n)
+                                elif isinstance(v, ast.Call) and isinstance(v.func, ast.Attribute) and v.func.attr in ('span',):
+                                    pass        # positions, not text
+                                elif isinstance(v, ast.Call) and isinstance(v.func, ast.Name):
+                                    callee = ctx.cg.lookup_name(f, v.func.id)
+                                    if isinstance(callee, Func):
+                                        for r in walk_own(callee.node):
+                                            if isinstance(r, ast.Return) and isinstance(r.value, ast.Tuple) and i < len(r.value.elts):
+                                                term(callee, r.value.elts[i], r)
+                                else:
+                                    term(f, v, n)
+            elif isinstance(n, ast.AugAssign) and isinstance(n.target, ast.Name) and n.target.id == name:
+                term(f, n.value, n)
+            elif isinstance(n, (ast.For, ast.AsyncFor)):
+                if any(isinstance(x, ast.Name) and x.id == name for x in ast.walk(n.target)):
+                    it = n.iter
+                    if isinstance(it, ast.Call) and isinstance(it.func, ast.Name) and it.func.id == 'enumerate' and it.args:
+                        it = it.args[0]
+                    term(f, it, n)
+    rep.stat('tok8_terms', n_terms[0])
+    if not any(o.rule == 'TOK-8' and not o.ok for o in rep.obs):
+        rep.ob('TOK-8', TOK, 'tokenize_lines', 'string fields of %d token constructions: %d terms, %d traced variables'
+               % (len(cons), n_terms[0], len(seen)), True)
+    if len(cons) < 15 or n_terms[0] < 25:
+        raise AnalysisError('TOK-8: too few token constructions / terms analysed (%d / %d)' % (len(cons), n_terms[0]))
